@@ -282,11 +282,11 @@ func isCenterAdjacent(p *tak.Position, m tak.Move) bool {
 			((m.Y == mid-1 || m.Y == mid+1) && m.X == mid)
 	}
 	if (m.X >= mid-1 && m.X <= mid) &&
-		(m.Y >= mid-2 || m.Y <= mid+1) {
+		(m.Y >= mid-2 && m.Y <= mid+1) {
 		return true
 	}
 	if (m.X >= mid-2 && m.X <= mid+1) &&
-		(m.Y >= mid-1 || m.Y <= mid) {
+		(m.Y >= mid-1 && m.Y <= mid) {
 		return true
 	}
 	return false
@@ -395,26 +395,43 @@ func (c *Cairn) GetMove(p *tak.Position) (tak.Move, bool) {
 		} else {
 			y = wy - 1
 		}
-		return tak.Move{
-			Type: tak.PlaceFlat, X: x, Y: y,
-		}, true
-	case 4:
-		// white slides to center
-		wx := int(c.whitePlace.X)
-		wy := int(c.whitePlace.Y)
-		mid := int(p.Size() / 2)
-		var ty tak.MoveType
-		if p.Size()%2 == 1 {
-			ty = dir(wx, wy, mid, mid)
-		} else {
-			if wx == mid || wy == mid {
-				ty = dir(wx, wy, mid, mid)
-			} else {
-				ty = dir(wx, wy, mid-1, mid-1)
+		// prefer the diagonal towards the center; if it is
+		// taken, any free square the rule accepts
+		offsets := [][2]int8{
+			{x - wx, y - wy},
+			{1, 1}, {1, -1}, {-1, 1}, {-1, -1},
+			{2, 0}, {-2, 0}, {0, 2}, {0, -2},
+		}
+		for _, o := range offsets {
+			m := tak.Move{
+				Type: tak.PlaceFlat, X: wx + o[0], Y: wy + o[1],
+			}
+			if m.X < 0 || m.Y < 0 ||
+				int(m.X) >= p.Size() || int(m.Y) >= p.Size() {
+				continue
+			}
+			if p.Top(int(m.X), int(m.Y)) == 0 && isCenterAdjacent(p, m) {
+				return m, true
 			}
 		}
-		return tak.Move{Type: ty, X: int8(wx), Y: int8(wy),
-			Slides: tak.MkSlides(1)}, true
+		panic("no square for black's cairn stone")
+	case 4:
+		// white slides to center
+		// onto a center square next to black's stone
+		for _, ty := range []tak.MoveType{
+			tak.SlideLeft, tak.SlideRight, tak.SlideUp, tak.SlideDown,
+		} {
+			m := tak.Move{Type: ty,
+				X: c.whitePlace.X, Y: c.whitePlace.Y,
+				Slides: tak.MkSlides(1)}
+			dx, dy := m.Dest()
+			dst := tak.Move{Type: tak.PlaceFlat, X: dx, Y: dy}
+			if isCentered(p, dst) &&
+				distance(dx, dy, c.blackPlace.X, c.blackPlace.Y) == 1 {
+				return m, true
+			}
+		}
+		panic("no center square between the cairn stones")
 	case 5:
 		return tak.Move{
 			Type: dir(int(c.blackPlace.X), int(c.blackPlace.Y),
